@@ -824,6 +824,20 @@ func (e *Env) JudgeListUsers(who string, rq gen.Request, st *rm.State, got []str
 	}
 	if ReachesKind(e.Sc.Model, rm.ObjType(rq.Obj), rq.Rel, rm.Difference) {
 		sig += " reaches_exclusion"
+		// how many typed-wildcard tuples of the filter's type the state holds (the wildcard handling of
+		// exclusions is a code path of its own)
+		nw := 0
+		for _, t := range st.Tuples {
+			if rm.IsWildcard(t.User) && rm.ObjType(t.User) == strings.SplitN(rq.Filter, "#", 2)[0] {
+				nw++
+			}
+		}
+		switch {
+		case nw >= 2:
+			sig += " wildcard_tuples=several"
+		case nw == 1:
+			sig += " wildcard_tuples=one"
+		}
 	}
 	sig += e.SigExtra
 	nUneval := len(st.Unevaluable(rq.Ctx))
